@@ -12,7 +12,7 @@ Definition Qc_abs (a : Qc) : Qc := if Qle_bool 0 (this a) then a else Qcopp a.
 Definition QcOps : ops Qc :=
   {| o0 := 0%Qc; o1 := 1%Qc; oadd := Qcplus; osub := Qcminus; omul := Qcmult; odiv := Qcdiv; oopp := Qcopp;
      oconj := fun x => x; osqrt := Qc_sqrt; oabs := Qc_abs; oltb := Qc_ltb;
-     osmall := Q2Qc (1 # 10000000000000000000000000000000000000000); osafe := Q2Qc (1 # 10000000000000000000000000000000000000000) |}.
+     osmall := Q2Qc (1 # 10000000000000000000000000000000000000000); ozero := Q2Qc (1 # 10000000000000000000000000000000000000000); osafe := Q2Qc (1 # 10000000000000000000000000000000000000000) |}.
 
 Definition qz (z : Z) : Qc := Q2Qc (inject_Z z).
 Definition qq (a : Z) (b : positive) : Qc := Q2Qc (a # b).
